@@ -86,6 +86,17 @@ def run (t : Tier) : Emit Unit := do
       let ops : List MuxOp := [.add { elementaryPID := 0x100, elementaryStreamDescriptors := ds, streamType := 0x06 }, .setPCR 0x100, .tables]
       emit "C09" (DriverMux.muxCase { period := 40, ops := ops } true "mux-sections-per-descriptor-kind")
 
+  -- language codes that are not 3 bytes long: the field is 3 bytes on the wire (padded with 0 / truncated), and every
+  -- length that is announced counts those 3 bytes
+  for code in [[], [0x65], [0x65, 0x6e], [0x65, 0x6e, 0x67, 0x6c], [0x65, 0x6e, 0x67, 0x6c, 0x69]] do
+    let code3 : Bytes := code.take 3 ++ List.replicate (3 - code.length) 0
+    let mk (c : Bytes) : List MuxOp :=
+      let d : Descriptor := { tag := descriptorTagISO639LanguageAndAudioType, iso639LanguageAndAudioType := some { language := c, type := 1 } }
+      let d2 : Descriptor := { tag := descriptorTagStreamIdentifier, streamIdentifier := some { componentTag := 7 } }
+      [.add { elementaryPID := 0x100, elementaryStreamDescriptors := descsP [d, d2], streamType := 0x0f }, .setPCR 0x100, .tables]
+    let raw := DriverMux.muxCase { period := 40, ops := mk code } false "mux-sections-language-code-length"
+    let norm := DriverMux.muxCase { period := 40, ops := mk code3 } true "x"
+    emit "C09" { raw with spec := norm.spec }
   -- VBI data: every data service id x 0..3 lines (the per-service size depends on the id)
   for id in [1, 2, 4, 5, 6, 7, 0, 3, 0x10] do
     for lines in [0:4] do
